@@ -186,6 +186,20 @@ def fam_for(tier, rng):
                                 body.append(b.let(c, bin_("+", c, lit("I", 1))))
                             main = pre + [b.for_(c, num(lo), num(hi), step, body), b.print(lit("$", "after"), c)]
                             out.append({"fam": "for:%s/%s%s" % (ct, form, "/mod" if mod else ""), "prog": prog(main)})
+    # start, limit and step are evaluated in that order: when two of them fail, the error is that of the first
+    for ct in ("I", "L"):
+        for which in ("lo-hi", "lo-step", "hi-step", "all"):
+            b = B()
+            c = var("K", ct)
+            z = var("ZZ", "I")
+            bad_lo = bin_("/", lit("I", 1), z)                      # division by zero (11)
+            bad_hi = bin_("*", lit("I", 30000), lit("I", 30000)) if ct == "L" else lit("L", 70000)    # overflow (6)
+            bad_st = idx("AR", "I", [lit("I", 9)])                  # subscript out of range (9)
+            lo = bad_lo if which in ("lo-hi", "lo-step", "all") else lit("I", 1)
+            hi = bad_hi if which in ("lo-hi", "hi-step", "all") else lit("I", 3)
+            st = bad_st if which in ("lo-step", "hi-step", "all") else lit("I", 1)
+            main = [b.dim("AR", "I", [{"lo": lit("I", 0), "hi": lit("I", 2), "nolo": False}]), b.for_(c, lo, hi, st, [b.print(c)]), b.print(lit("$", "after"))]
+            out.append({"fam": "for:error-order/%s/%s" % (ct, which), "prog": prog(main)})
     # limit and step evaluated once; limit variable changed in the body
     for ct in NUMT:
         b = B()
